@@ -1,8 +1,8 @@
 from contracts.sweep import CONTRACTS as _C, INFO_CONTRACTS as _I
 from contracts.writer import FetchHandleStub, StoredEditsNative, WriteAttributes
-from contracts.removal import ConcatAttributesPending
+from contracts.removal import ConcatAttributesPending, ConcatUpdateDispatch
 from contracts.h5graph import FetchHandle as _FH, WriteArrayAttribute
-CONTRACTS = list(_C) + list(_I) + [FetchHandleStub, WriteAttributes, _FH, WriteArrayAttribute, ConcatAttributesPending, StoredEditsNative]
+CONTRACTS = list(_C) + list(_I) + [FetchHandleStub, WriteAttributes, _FH, WriteArrayAttribute, ConcatAttributesPending, ConcatUpdateDispatch, StoredEditsNative]
 
 MANIFEST = {
     "category": "proof",
